@@ -77,5 +77,9 @@ pub fn shape_with_plan(
         }
     }
 
+    // Pairs with `enter()` above: an empty buffer never reaches `shape_internal`,
+    // and would otherwise keep the per-call length/operation budgets.
+    buffer.leave();
+
     GlyphBuffer(buffer)
 }
